@@ -226,6 +226,10 @@ func runStreams(c *vlib.Ctx) error {
 		in := randomFree(rand.New(rand.NewSource(c.Seed*7919+int64(i))), c.Seed*7919+int64(i))
 		jobs = append(jobs, job{cid: fmt.Sprintf("f%d", i), run: func(cid string) *recorder { return runFree(cid, in) }})
 	}
+	if argInt(c, "big", 1) > 0 {
+		in := bigFree(c.Seed*977 + 5)
+		jobs = append(jobs, job{cid: "b0", run: func(cid string) *recorder { return runFree(cid, in) }})
+	}
 	if c.Prop == "C24" {
 		nst := argInt(c, "storms", 2)
 		for i := 0; i < nst; i++ {
